@@ -4,6 +4,7 @@ import (
 	"encoding/json"
 	"math/rand"
 	"os"
+	"time"
 
 	"verif/harness/vh"
 )
@@ -326,7 +327,7 @@ func cmdRandom(path string, rng *rand.Rand, traces, steps int) {
 			}
 		}
 		w.srv.Close()
-		w.cl.Close()
+		vh.Within(2*time.Second, func() { w.cl.Close() })
 	}
 	out.Summary(map[string]interface{}{"traces": traces, "records": total})
 }
